@@ -57,6 +57,28 @@ if spec["writer"] == "export":
         pt.set_cap_tensor(k, np.ones(bonds[k], dtype=complex))
     h5py.File.close = counted_close
     pt.export(spec["file"])
+elif spec["writer"] == "handfill":
+    # a write-mode file filled by hand; the object is given its name / description while the file is being written
+    pt = ptm.FileProcessTensor("write", spec["file"], 2, dt=0.1, name="first")
+    rng = np.random.default_rng(0)
+    bonds = spec["bonds"]
+    renamed = [False]
+    def maybe_rename():
+        if not renamed[0] and count[0] >= spec["rename_after"]:
+            renamed[0] = True
+            if spec["rename"] in ("name", "both"):
+                pt.name = "renamed"
+            if spec["rename"] in ("description", "both"):
+                pt.description = "described later"
+    maybe_rename()
+    for k in range(len(bonds) - 1):
+        pt.set_mpo_tensor(k, rng.integers(-2, 3, (bonds[k], bonds[k + 1], 4, 4)).astype(complex))
+        maybe_rename()
+    for k in range(len(bonds)):
+        pt.set_cap_tensor(k, np.ones(bonds[k], dtype=complex))
+        maybe_rename()
+    h5py.File.close = counted_close
+    pt.close()
 else:
     corr = oqupy.PowerLawSD(alpha=0.1, zeta=1, cutoff=3.0, cutoff_type="exponential")
     bath = oqupy.Bath(0.5 * oqupy.operators.sigma("z"), corr)
@@ -386,6 +408,23 @@ def run(chk):
             for k in sorted(set([1, 2, nops_t // 2, nops_t - 1]) if not thorough else range(1, nops_t)):
                 if 1 <= k < nops_t:
                     jobs.append({"writer": "pttempo", "end": end, "kill_at": k, "flush": False, "death": "raise"})
+        # a write-mode file filled by hand and renamed / described at some point while it is being written, killed afterwards
+        hb = [1, 2, 2, 1]
+        probe_h = {"writer": "handfill", "bonds": hb, "rename_after": 2, "rename": "both", "kill_at": 0, "flush": False, "file": os.path.join(tmp, "probe_h.hdf5")}
+        rc, nops_h, err = run_child(probe_h)
+        if rc != 0 or not nops_h or observe(probe_h["file"])[0] != "clean":
+            chk.disagree("crash harness", f"probe hand-filled file run failed rc={rc} {err} {observe(probe_h['file'])}")
+            nops_h = 0
+        for ra in ([0, 1, 3] if not thorough else range(0, max(1, nops_h - 1))):
+            for what in (["both"] if not thorough else ["name", "description", "both"]):
+                if ra == 1 and not thorough:
+                    what = rng.choice(["name", "description"])
+                for k in range(max(1, ra + 1), nops_h + 1):
+                    jobs.append({"writer": "handfill", "bonds": hb, "rename_after": ra, "rename": what, "kill_at": k, "flush": True})
+                    if thorough:
+                        jobs.append({"writer": "handfill", "bonds": hb, "rename_after": ra, "rename": what, "kill_at": k, "flush": False})
+                if nops_h:
+                    jobs.append({"writer": "handfill", "bonds": hb, "rename_after": ra, "rename": what, "kill_at": 0, "flush": False})     # completes
         for i, j in enumerate(jobs):
             j["file"] = os.path.join(tmp, f"crash_{i}.hdf5")
         with ThreadPoolExecutor(12) as ex:
@@ -397,7 +436,7 @@ def run(chk):
             rec = dict(j, outcome=outcome, content=content, rc=rc)
             rec.pop("file")
             chk.count(f"{j['writer']}:{outcome}")
-            chk.case(rec, (j["writer"], j["kill_at"], j["flush"], str(j.get("bonds")), bool(j.get("kill_in_close")), j.get("death", "kill")))
+            chk.case(rec, (j["writer"], j["kill_at"], j["flush"], str(j.get("bonds")), bool(j.get("kill_in_close")), j.get("death", "kill"), j.get("rename_after"), j.get("rename")))
             if completed:
                 if rc != 0:
                     chk.disagree("crash harness", f"uninterrupted writer failed: {err}")
@@ -411,7 +450,8 @@ def run(chk):
                     pass    # died inside h5py's own close after the flag was reset: complete content, nothing missing
                 elif outcome == "clean":
                     chk.fail("crash-undetected" if j.get("death") != "raise" else "exception-death-undetected",
-                             (f"writer killed after operation {j['kill_at']} ({'flushed' if j['flush'] else 'unflushed'}); " if j.get("death") != "raise" else
+                             (f"writer killed after operation {j['kill_at']} ({'flushed' if j['flush'] else 'unflushed'}"
+                              + (f"; {j['rename']} set after operation {j['rename_after']}" if j["writer"] == "handfill" else "") + "); " if j.get("death") != "raise" else
                               f"writer dies through an exception raised in write operation {j['kill_at']}; ")
                              + f"the file opens without error or warning (content {content})", rec)
                 # model: flushed prefix of export must read back as the model's prefix state
